@@ -37,10 +37,10 @@ Theorem C02_present_redact_build_verify :
     (forall x y, H x = H y -> x = y) ->
     (forall ps, o_dec O (enc ps) = DJson (JArr ps)) ->
     forall t : atree, wf H enc t -> NoDup (alldigs H enc t) -> NoDup (hdigs H enc t) -> aheight t <= 129 ->
-    forall token jwt L ds s1 cseg s3 hdr0 a alg (rs : list string) (E : build_env) kbpol,
+    forall token jwt L ds s1 cseg s3 hdr0 alg (rs : list string) (E : build_env) kbpol,
       sd_jwt_parts token = (jwt, L, None) -> jwt_parts_m jwt = Val (s1, cseg, s3) ->
       o_claims O cseg = Ok (blind H enc t) -> o_jwt O jwt = Val (hdr0, blind H enc t) ->
-      jget "_sd_alg" (blind H enc t) = JStr a -> parse_halg a = Some alg -> o_hash O alg = H ->
+      declared_halg (blind H enc t) = Some alg -> o_hash O alg = H ->
       jhas "cnf" (blind H enc t) = false ->
       NoDup L -> (forall s, In s L -> In (H s) (alldigs H enc t) -> In (H s) (hdigs H enc t)) ->
       decode_all H (o_dec O) L = Ok ds ->
@@ -65,10 +65,10 @@ Theorem C02_present_redact_bind_build_verify :
     (forall x y, H x = H y -> x = y) ->
     (forall ps, o_dec O (enc ps) = DJson (JArr ps)) ->
     forall t : atree, wf H enc t -> NoDup (alldigs H enc t) -> NoDup (hdigs H enc t) -> aheight t <= 129 ->
-    forall token jwt L ds s1 cseg s3 hdr0 a alg (rs : list string) (E : build_env) aud jalg kb n e,
+    forall token jwt L ds s1 cseg s3 hdr0 alg (rs : list string) (E : build_env) aud jalg kb n e,
       sd_jwt_parts token = (jwt, L, None) -> jwt_parts_m jwt = Val (s1, cseg, s3) ->
       o_claims O cseg = Ok (blind H enc t) -> o_jwt O jwt = Val (hdr0, blind H enc t) ->
-      jget "_sd_alg" (blind H enc t) = JStr a -> parse_halg a = Some alg -> o_hash O alg = H ->
+      declared_halg (blind H enc t) = Some alg -> o_hash O alg = H ->
       jhas "cnf" (blind H enc t) = true -> is_null (jget "cnf" (blind H enc t)) = false ->
       jget "kty" (jget "cnf" (blind H enc t)) = JStr "RSA" -> jget "e" (jget "cnf" (blind H enc t)) = JStr e ->
       jget "n" (jget "cnf" (blind H enc t)) = JStr n ->
